@@ -124,6 +124,18 @@ structure St (σ ω : Type) where
 
 variable {σ ω : Type}
 
+def setTimeout (s : St σ ω) (t : Int) : St σ ω := { s with g := { s.g with remainingTime := t } }
+def setLastError (s : St σ ω) (e : SslErr) : St σ ω := { s with g := { s.g with lastError := e } }
+def setPending (s : St σ ω) (p : Bytes) : St σ ω := { s with g := { s.g with pendingSend := p } }
+/-- "we have been deemed readable": zero budget, `isReadable`, a cached WANT_READ is forgotten -/
+def prepReadable (s : St σ ω) : St σ ω :=
+  { s with g := { s.g with remainingTime := 0, isReadable := true,
+                           lastError := if s.g.lastError = .wantRead then .none else s.g.lastError } }
+/-- "we have been deemed writable" -/
+def prepWritable (s : St σ ω) : St σ ω :=
+  { s with g := { s.g with remainingTime := 0, isWritable := true,
+                           lastError := if s.g.lastError = .wantWrite then .none else s.g.lastError } }
+
 /-- `UnderDeadline`: a positive budget shrinks by the time that passed, never below 0 -/
 def underDeadline (t : Int) (before after : Int) : Int :=
   if t ≤ 0 then t else remainingMs (before + t) after
@@ -147,12 +159,12 @@ def handleError (W : World ω) (s : St σ ω) (err : SslErr) : Out Bool × St σ
 /-- `HandleLastError()` -/
 def handleLastError (W : World ω) (s : St σ ω) : Out Bool × St σ ω :=
   match handleError W s s.g.lastError with
-  | (.ok true, s') => (.ok true, { s' with g := { s'.g with lastError := .none } })
+  | (.ok true, s') => (.ok true, setLastError s' .none)
   | r => r
 
 /-- `HandleResult(res)`: `lastError = SSL_get_error(...)`, then `HandleLastError()` -/
 def handleResult (W : World ω) (s : St σ ω) (ans : SslAns) : Out Bool × St σ ω :=
-  handleLastError W { s with g := { s.g with lastError := ans.toErr } }
+  handleLastError W (setLastError s ans.toErr)
 
 /-- `BioRead(data, size)`: what the read BIO hands to the engine (`[]` = 0 bytes, retry) -/
 def bioRead (W : World ω) (s : St σ ω) (n : Nat) : Out Bytes × St σ ω :=
@@ -211,25 +223,38 @@ def interp (W : World ω) (s : St σ ω) : EngProg σ → Out (SslAns × Bytes) 
 def noteCall (E : Engine σ) (s : St σ ω) (isRead : Bool) (arg : Bytes) (ans : SslAns) : St σ ω :=
   { s with g := { s.g with engCalls := ⟨isRead, arg, ans, E.initFinished s.e⟩ :: s.g.engCalls } }
 
+/-- how one round of a retry loop ends -/
+inductive Next where
+  | stop (o : Out Bytes)                 -- the loop ends with this result
+  | again (i : Nat) (rest : Bytes)       -- next round with `i` rounds left and `rest` unsent
+  deriving Repr
+
+/-- one round of the loop of `Read(data, size)` with `i` rounds left after this one;
+`none` = go round again -/
+def readRound (C : Cfg) (W : World ω) (E : Engine σ) (size : Nat) (i : Nat) (s : St σ ω) : Option (Out Bytes) × St σ ω :=
+  match interp W s (E.sslRead s.e size) with
+  | (.exn e, s') => (some (.exn e), s')
+  | (.abort m, s') => (some (.abort m), s')
+  | (.ok (ans, out), s1) =>
+    let s1 := noteCall E s1 true [] ans
+    match ans with
+    | .done _ => (some (.ok out), s1)
+    | _ =>
+      match handleResult W s1 ans with
+      | (.exn e, s2) => (some (.exn e), s2)
+      | (.abort m, s2) => (some (.abort m), s2)
+      | (.ok false, s2) => (some (.ok []), s2)
+      | (.ok true, s2) =>
+        if i = 0 ∧ C.asserts then (some (.abort "assert(i < handshakeStepsMax) in Read"), s2)
+        else (none, s2)
+
 /-- the loop of `Read(data, size)`; `i` counts from `stepsMax` down -/
 def readLoop (C : Cfg) (W : World ω) (E : Engine σ) (size : Nat) : Nat → St σ ω → Out Bytes × St σ ω
   | 0, s => (.ok [], s)
   | i + 1, s =>
-    match interp W s (E.sslRead s.e size) with
-    | (.exn e, s') => (.exn e, s')
-    | (.abort m, s') => (.abort m, s')
-    | (.ok (ans, out), s1) =>
-      let s1 := noteCall E s1 true [] ans
-      match ans with
-      | .done _ => (.ok out, s1)
-      | _ =>
-        match handleResult W s1 ans with
-        | (.exn e, s2) => (.exn e, s2)
-        | (.abort m, s2) => (.abort m, s2)
-        | (.ok false, s2) => (.ok [], s2)
-        | (.ok true, s2) =>
-          if i = 0 ∧ C.asserts then (.abort "assert(i < handshakeStepsMax) in Read", s2)
-          else readLoop C W E size i s2
+    match readRound C W E size i s with
+    | (some o, s') => (o, s')
+    | (none, s') => readLoop C W E size i s'
 
 /-- `Read(data, size)` -/
 def tlsRead (C : Cfg) (W : World ω) (E : Engine σ) (s : St σ ω) (size : Nat) : Out Bytes × St σ ω :=
@@ -239,55 +264,58 @@ def tlsRead (C : Cfg) (W : World ω) (E : Engine σ) (s : St σ ω) (size : Nat)
   | (.exn e, s') => (.exn e, s')
   | (.abort m, s') => (.abort m, s')
 
-/-- the loop of `Write(data, size)`.  `i` = rounds left, `rest` = unsent suffix; returns the unsent suffix.
-The measure is lexicographic (bytes left, rounds left) since e3dfab5 resets the round counter on progress. -/
+/-- one round of the loop of `Write(data, size)`: `rest` (non-empty) is the unsent suffix, `i'` rounds are
+left after this one.  Since e3dfab5 a successful partial write makes the full budget available again. -/
+def writeRound (C : Cfg) (W : World ω) (E : Engine σ) (i' : Nat) (rest : Bytes) (s : St σ ω) : Next × St σ ω :=
+  if C.asserts ∧ ¬ (s.g.pendingSend = [] ∨ s.g.pendingSend = rest) then
+    (.stop (.abort "assert(pendingSend.empty() || pendingSend == remaining)"), s)
+  else
+    match interp W s (E.sslWrite s.e rest) with
+    | (.exn e, s') => (.stop (.exn e), s')
+    | (.abort m, s') => (.stop (.abort m), s')
+    | (.ok (ans, _), s1) =>
+      let s1 := noteCall E s1 false rest ans
+      match ans with
+      | .done k =>
+        let s2 := setPending s1 []
+        if 0 < k ∧ C.fixRoundReset then (.again C.stepsMax (rest.drop k), s2)   -- `i = 0;` then `++i`
+        else if i' = 0 ∧ C.asserts then (.stop (.abort "assert(i < handshakeStepsMax) in Write"), s2)
+        else (.again i' (rest.drop k), s2)
+      | _ =>
+        let s2 := setPending s1 rest
+        match handleResult W s2 ans with
+        | (.exn e, s3) => (.stop (.exn e), s3)
+        | (.abort m, s3) => (.stop (.abort m), s3)
+        | (.ok false, s3) => (.stop (.ok rest), s3)
+        | (.ok true, s3) =>
+          if i' = 0 ∧ C.asserts then (.stop (.abort "assert(i < handshakeStepsMax) in Write"), s3)
+          else (.again i' rest, s3)
+
+/-- the measure of the write loop: bytes left, then rounds left -/
+def roundDecreases (rest : Bytes) (i' : Nat) (rest' : Bytes) (j : Nat) : Prop :=
+  rest'.length < rest.length ∨ (rest'.length = rest.length ∧ j ≤ i')
+
+instance (rest : Bytes) (i' : Nat) (rest' : Bytes) (j : Nat) : Decidable (roundDecreases rest i' rest' j) := by
+  unfold roundDecreases; exact inferInstance
+
+/-- the loop of `Write(data, size)`; returns the unsent suffix.  The `else` branch of the progress
+test is unreachable (`writeRound_decreases` in TlsLemmas); it only makes the termination argument local. -/
 def writeLoop (C : Cfg) (W : World ω) (E : Engine σ) (i : Nat) (rest : Bytes) (s : St σ ω) : Out Bytes × St σ ω :=
   match i with
   | 0 => (.ok rest, s)
   | i' + 1 =>
-    if hr : rest = [] then (.ok rest, s)
-    else if C.asserts ∧ ¬ (s.g.pendingSend = [] ∨ s.g.pendingSend = rest) then
-      (.abort "assert(pendingSend.empty() || pendingSend == remaining)", s)
+    if rest = [] then (.ok rest, s)
     else
-      match interp W s (E.sslWrite s.e rest) with
-      | (.exn e, s') => (.exn e, s')
-      | (.abort m, s') => (.abort m, s')
-      | (.ok (ans, _), s1) =>
-        let s1 := noteCall E s1 false rest ans
-        match ans with
-        | .done k =>
-          let s2 := { s1 with g := { s1.g with pendingSend := [] } }
-          if hk : 0 < k ∧ C.fixRoundReset then
-            -- progress: `i = 0;` then `++i` - the full budget of rounds is available again
-            writeLoop C W E C.stepsMax (rest.drop k) s2
-          else if i' = 0 ∧ C.asserts then (.abort "assert(i < handshakeStepsMax) in Write", s2)
-          else writeLoop C W E i' (rest.drop k) s2
-        | _ =>
-          let s2 := { s1 with g := { s1.g with pendingSend := rest } }
-          match handleResult W s2 ans with
-          | (.exn e, s3) => (.exn e, s3)
-          | (.abort m, s3) => (.abort m, s3)
-          | (.ok false, s3) => (.ok rest, s3)
-          | (.ok true, s3) =>
-            if i' = 0 ∧ C.asserts then (.abort "assert(i < handshakeStepsMax) in Write", s3)
-            else writeLoop C W E i' rest s3
+      match writeRound C W E i' rest s with
+      | (.stop o, s') => (o, s')
+      | (.again j rest', s') =>
+        if h : roundDecreases rest i' rest' j then writeLoop C W E j rest' s'
+        else (.abort "unreachable", s')
 termination_by (rest.length, i)
 decreasing_by
-  · -- progress branch
-    have hl : 0 < rest.length := List.length_pos_iff.mpr hr
-    apply Prod.Lex.left
-    simp only [List.length_drop]
-    omega
-  · -- `done k` without the reset (legacy, or the impossible `done 0`)
-    rcases Nat.eq_zero_or_pos k with h0 | hpos
-    · subst h0
-      simp only [List.drop_zero]
-      exact Prod.Lex.right _ (by omega)
-    · have hl : 0 < rest.length := List.length_pos_iff.mpr hr
-      apply Prod.Lex.left
-      simp only [List.length_drop]
-      omega
-  · exact Prod.Lex.right _ (by omega)
+  rcases h with h | ⟨h1, h2⟩
+  · exact Prod.Lex.left _ _ h
+  · rw [h1]; exact Prod.Lex.right _ (by omega)
 
 /-- `Write(data, size)`: returns the number of plaintext bytes the engine took -/
 def tlsWrite (C : Cfg) (W : World ω) (E : Engine σ) (s : St σ ω) (data : Bytes) : Out Nat × St σ ω :=
@@ -305,40 +333,34 @@ def tlsWrite (C : Cfg) (W : World ω) (E : Engine σ) (s : St σ ω) (data : Byt
 
 /-- `Receive(data, size, timeout)`; `.ok []` is `std::nullopt` -/
 def receiveT (C : Cfg) (W : World ω) (E : Engine σ) (s : St σ ω) (size : Nat) (timeout : Int) : Out Bytes × St σ ω :=
-  let s := { s with g := { s.g with remainingTime := timeout } }
-  match tlsRead C W E s size with
+  match tlsRead C W E (setTimeout s timeout) size with
   | (.ok [], s') =>
     if timeout < 0 ∧ C.asserts then (.abort "assert(timeout.count() >= 0) in Receive", s')
     else if C.fixRecvReset ∧ s'.g.lastError = .wantRead ∧ E.initFinished s'.e then
-      (.ok [], { s' with g := { s'.g with lastError := .none } })
+      (.ok [], setLastError s' .none)
     else (.ok [], s')
   | r => r
 
 /-- `Receive(data, size)`: the driver has deemed the socket readable -/
 def receiveReadable (C : Cfg) (W : World ω) (E : Engine σ) (s : St σ ω) (size : Nat) : Out Bytes × St σ ω :=
-  let g := { s.g with remainingTime := 0, isReadable := true,
-                      lastError := if s.g.lastError = .wantRead then .none else s.g.lastError }
-  match tlsRead C W E { s with g := g } size with
+  match tlsRead C W E (prepReadable s) size with
   | (.ok [], s') =>
-    if E.initFinished s'.e then (.ok [], { s' with g := { s'.g with lastError := .none } })
+    if E.initFinished s'.e then (.ok [], setLastError s' .none)
     else (.ok [], s')
   | r => r
 
 /-- `Send(data, size, timeout)` -/
 def sendT (C : Cfg) (W : World ω) (E : Engine σ) (s : St σ ω) (data : Bytes) (timeout : Int) : Out Nat × St σ ω :=
-  let s := { s with g := { s.g with remainingTime := timeout } }
-  match tlsWrite C W E s data with
+  match tlsWrite C W E (setTimeout s timeout) data with
   | (.ok n, s') =>
     if C.fixSendReset ∧ s'.g.lastError = .wantWrite ∧ E.initFinished s'.e then
-      (.ok n, { s' with g := { s'.g with lastError := .none } })
+      (.ok n, setLastError s' .none)
     else (.ok n, s')
   | r => r
 
 /-- `SendSome(data, size)`: the driver has deemed the socket writable -/
 def sendSomeWritable (C : Cfg) (W : World ω) (E : Engine σ) (s : St σ ω) (data : Bytes) : Out Nat × St σ ω :=
-  let g := { s.g with remainingTime := 0, isWritable := true,
-                      lastError := if s.g.lastError = .wantWrite then .none else s.g.lastError }
-  tlsWrite C W E { s with g := g } data
+  tlsWrite C W E (prepWritable s) data
 
 /-- `DriverQuery(events)`: only the POLLOUT bit of `events` is touched -/
 def driverQuery (E : Engine σ) (s : St σ ω) (pollOut : Bool) : Bool × St σ ω :=
@@ -355,9 +377,7 @@ def driverQuery (E : Engine σ) (s : St σ ω) (pollOut : Bool) : Bool × St σ 
 def driverPending (C : Cfg) (W : World ω) (E : Engine σ) (s : St σ ω) : Out Unit × St σ ω :=
   if E.initFinished s.e then (.ok (), s)
   else
-    let g := { s.g with remainingTime := 0, isWritable := true,
-                        lastError := if s.g.lastError = .wantWrite then .none else s.g.lastError }
-    match tlsRead C W E { s with g := g } 64 with
+    match tlsRead C W E (prepWritable s) 64 with
     | (.ok [], s') => (.ok (), s')
     | (.ok _, s') => (.exn (.logic "unexpected recceive"), s')
     | (.exn e, s') => (.exn e, s')
